@@ -19,7 +19,8 @@
 EXTENDS Integers, TLC
 
 CONSTANTS MaxI,             \* machine range is MinI..MaxI
-          TsDivIsFloor      \* TRUE: the TS back end prints Math.floor(a / b)  (the pinned tree; known finding)
+          TsDivIsFloor,     \* TRUE: the TS back end prints Math.floor(a / b)  (the pinned tree; known finding)
+          CmpShiftChecked   \* TRUE: (x + c1) OP c2 -> x OP (c2 - c1) only when c2 - c1 is representable
 
 MinI == -MaxI - 1
 
@@ -151,5 +152,15 @@ TsRefinesSrc == (SrcDefined(op, a, b) /\ ~KnownNegDiv(op, a, b)) => TsOp(op, a, 
 FoldMatchesTarget ==
   /\ FoldOp(op, a, b).k = "val" => WasmOp(op, a, b) = FoldOp(op, a, b)
   /\ FoldOp(op, a, b).k = "nofold" => WasmOp(op, a, b).k = "trap"
-\* vacuity guards: the interesting classes exist in the range
+\* C02 (rule level): conditional constant propagation merges `t = x + c1; t OP c2` into `x OP (c2 - c1)`
+\* (merge_binary_expression).  With `b` as c1 and `a` as c2 and every x of the range: whenever x + c1 is
+\* defined, the rewritten comparison must give the same answer — which requires c2 - c1 to be representable;
+\* CmpShiftChecked = FALSE models the pinned tree (unchecked subtraction that wraps).
+CmpOps == {"LT", "LE", "GT", "GE", "EQ", "NE"}
+ShiftedConst(c2, c1) == IF SubFits(c2, c1) THEN Val(c2 - c1) ELSE IF CmpShiftChecked THEN NoFold ELSE Val(Wrap(c2 - c1))
+CmpShiftSound ==
+  op \in CmpOps =>
+    \A x \in Range :
+      (AddFits(x, b) /\ ShiftedConst(a, b).k = "val") =>
+         SrcVal(op, x + b, a) = SrcVal(op, x, ShiftedConst(a, b).v)
 =============================================================================
